@@ -61,6 +61,9 @@ ENTRIES = [
     ('view=temporary', 'g', 'typedef typename std::decay<decltype(X)>::type K; typename G::DataType buf = Yo.coeffs(); Eigen::Map<G> V(buf.data()); V = K(X); d << V; d << buf;'),
     ('tangent+group(group-in-any-storage)', 'g', 'd << (to + X) << to.plus(X) << to.lplus(X) << to.rplus(X) << to.plus(X, Ja, Jb) << Ja << Jb << to.rplus(X, Ja, Jb) << Ja << Jb;'),
     ('static-constants(odr-use)', 'g', 'typedef typename std::decay<decltype(X)>::type K; d << odr(K::Dim) << odr(K::DoF) << odr(K::RepSize) << (BSz<K>::get() < 0 ? BSz<G>::get() : BSz<K>::get()) << std::max(K::DoF, K::RepSize);'),
+    ('forwards:group-aliases', 'g', 'Jac A1, B1, A2, B2; d << same(X.plus(t, A1, B1), X.rplus(t, A2, B2)); d << same(A1, A2); d << same(B1, B2); d << same(X + t, X.rplus(t)); d << same(X.minus(Y, A1, B1), X.rminus(Y, A2, B2)); d << same(A1, A2); d << same(B1, B2); d << same(X - Y, X.rminus(Y)); d << same(X * Y, X.compose(Y)); d << same(X.lift(A1), X.log(A2)); d << same(A1, A2); d << same(X.between(Y), X.inverse().compose(Y));'),
+    ('forwards:tangent-side-plus', 'g', 'Jac A1, B1, A2, B2; d << same(to.lplus(X, A1, B1), X.lplus(to, B2, A2)); d << same(A1, A2); d << same(B1, B2); d << same(to.rplus(X, A1, B1), X.rplus(to, B2, A2)); d << same(A1, A2); d << same(B1, B2); d << same(to.plus(X, A1, B1), X.lplus(to, B2, A2)); d << same(A1, A2); d << same(B1, B2); d << same(to + X, X.lplus(to)); d << same(to.retract(A1), to.exp(A2)); d << same(A1, A2);'),
+    ('forwards:free-functions', 'g', 'Jac A1, B1, A2, B2; d << same(manif::rplus(X, t, A1, B1), X.rplus(t, A2, B2)); d << same(A1, A2); d << same(B1, B2); d << same(manif::lplus(X, t, A1, B1), X.lplus(t, A2, B2)); d << same(A1, A2); d << same(B1, B2); d << same(manif::rminus(X, Y, A1, B1), X.rminus(Y, A2, B2)); d << same(A1, A2); d << same(B1, B2); d << same(manif::lminus(X, Y, A1, B1), X.lminus(Y, A2, B2)); d << same(A1, A2); d << same(B1, B2); d << same(manif::between(X, Y, A1, B1), X.between(Y, A2, B2)); d << same(A1, A2); d << same(B1, B2); d << same(manif::compose(X, Y, A1, B1), X.compose(Y, A2, B2)); d << same(A1, A2); d << same(B1, B2); d << same(manif::inverse(X, A1), X.inverse(A2)); d << same(A1, A2); d << same(manif::log(X, A1), X.log(A2)); d << same(A1, A2); d << same(manif::exp(t, A1), t.exp(A2)); d << same(A1, A2); d << same(manif::plus(X, t, A1, B1), X.plus(t, A2, B2)); d << same(A1, A2); d << same(B1, B2); d << same(manif::minus(X, Y, A1, B1), X.minus(Y, A2, B2)); d << same(A1, A2); d << same(B1, B2);'),
     ('Identity', 's', 'd << G::Identity();'),
     ('Random', 's', 'srand(7); d << (int)G::Random().size();'),
     # ---- mutating group members ---------------------------------------------------------------------
@@ -222,7 +225,11 @@ static void report(const char* entry, const char* storage, const Dg& d) {
   RES[entry][storage] = d.v;
   bool finite = true; for (double x : d.v) if (!(x == x) || x > 1e300 || x < -1e300) finite = false;
   fprintf(OUT, "{\"t\":\"exec\",\"entry\":\"%s\",\"storage\":\"%s\",\"n\":%d,\"finite\":%d}\n", entry, storage, (int)d.v.size(), finite ? 1 : 0);
+  // cells named "forwards:..." compare an alias with the canonical member it is documented to stand for: every recorded value must be 1
+  if (std::strncmp(entry, "forwards:", 9) == 0) for (double x : d.v) if (x != 1) { fprintf(OUT, "{\"t\":\"mismatch\",\"entry\":\"%s\",\"storage\":\"%s\"}\n", entry, storage); break; }
 }
+// bit-equality of two results (groups, tangents, matrices), as 0/1
+template <class A, class B> static int same(const A& a, const B& b) { Dg x, y; x | a; y | b; return x.v.size() == y.v.size() && (x.v.empty() || std::memcmp(x.v.data(), y.v.data(), x.v.size() * sizeof(double)) == 0) ? 1 : 0; }
 '''
 
 CELL = r'''
